@@ -73,10 +73,10 @@ PLANS.update({
 
 
 def race_jobs(tier, cores):
-    n, n2, stripes = (1, 100000, 4) if tier == "quick" else (8, 1000000, 8)
+    n, n2, stripes = (1, 100000, 4) if tier == "quick" else (3, 400000, 8)
     jobs = []
     for extra in ("none", "perturb"):
-        jobs += striped("racestress", n, n2, stripes, extra, race=True, timeout=3000)
+        jobs += striped("racestress", n, n2, stripes, extra, race=True, timeout=7200)
     return jobs
 
 
